@@ -2365,9 +2365,12 @@ class Recipe:
                 if isinstance(dest, Container):
                     step.trash = {substance: step.to[0].contents[substance] for substance in step.substances_used}
                 else:  # Plate
-                    for well in step.to[0].wells.flatten():
-                        for substance in step.substances_used:
-                            step.trash[substance] = step.trash.get(substance, 0.) + well.contents.get(substance, 0.)
+                    # what each well lost, so that a substance surviving in other wells is still accounted for
+                    for before, after in zip(step.to[0].wells.flatten(), step.to[1].wells.flatten()):
+                        for substance, amount in before.contents.items():
+                            if substance not in after.contents:
+                                step.trash[substance] = step.trash.get(substance, 0.) + amount
+                    step.substances_used = set(step.trash)
             elif operator == 'dilute':
                 dest = step.to[0]
                 dest_name = dest.name
